@@ -799,6 +799,199 @@ theorem loopSim {C : Code} {ctx : List BI} {lab : Option Label} {e contPc bodyPc
         simp only [loopContinues, Bool.false_eq_true, if_false]
         exact hb
 
+/-! ### `for (let …;;)`: the loop runs inside its per-iteration scope (one extra stack slot `x`), which break /
+outer continue / the normal exit leave with `leaveBlock 1`, and `continue` of the loop itself does not -/
+
+theorem findBrk_iscope_hit_cont {lb lab : Option Label} {bp cp : Nat} {ctx : List BI} (hm : labMatch lb lab = true) :
+    findBrk lb false (BI.iscope :: BI.loop lab bp cp :: ctx) = some ([], cp) := by
+  simp [findBrk, hitsHead, hm]
+
+theorem findBrk_iscope_hit_brk {lb lab : Option Label} {bp cp : Nat} {ctx : List BI} (hm : labMatch lb lab = true) :
+    findBrk lb true (BI.iscope :: BI.loop lab bp cp :: ctx) = some ([Instr.leaveBlock 1], bp) := by
+  simp [findBrk, hm]
+
+theorem findBrk_iscope_miss {lb lab : Option Label} {b : Bool} {bp cp : Nat} {ctx : List BI} {ex : List Instr} {t : Nat}
+    (hm : labMatch lb lab = false) (h : findBrk lb b (BI.iscope :: BI.loop lab bp cp :: ctx) = some (ex, t)) :
+    ∃ ex', ex = Instr.leaveBlock 1 :: ex' ∧ findBrk lb b ctx = some (ex', t) := by
+  simp only [findBrk, hitsHead, hm, Bool.false_eq_true, if_false, Bool.and_false] at h
+  cases h' : findBrk lb b ctx with
+  | none => simp [h'] at h
+  | some p =>
+    obtain ⟨ex', t'⟩ := p
+    simp [h'] at h
+    exact ⟨ex', h.1.symm, by rw [h.2]⟩
+
+theorem loopSimLet {C : Code} {ctx : List BI} {lab : Option Label} {L contPc bodyPc bEnd N id : Nat}
+    {I Ib : List Nat} {rf : Bool} {x : Val} {stk : List Val} (run : Nat → Res)
+    (hbody : ∀ i τ, τ.pc = bodyPc → τ.halted = none → τ.iters = [] → τ.cnt id = some i →
+        SimK C (BI.iscope :: BI.loop lab (L + 1) contPc :: ctx) τ bEnd Ib rf (run i).2 (kind (run i).1))
+    (hnext : ∀ i τ, (τ.pc = bEnd ∨ τ.pc = contPc) → τ.halted = none → τ.iters = [] → τ.cnt id = some i →
+        ∃ τ', Reach C τ τ' ∧ Common τ τ' [] I rf ∧ τ'.stack = τ.stack ∧
+          (if i + 1 < N then τ'.pc = bodyPc ∧ τ'.cnt id = some (i + 1) else τ'.pc = L))
+    (hL : C[L]? = some (Instr.leaveBlock 1))
+    (hidb : id ∉ Ib) (hsub : ∀ x, x ∈ Ib → x ∈ I) :
+    ∀ r i V τ, r + i = N → 0 < r → τ.pc = bodyPc → τ.halted = none → τ.iters = [] → τ.cnt id = some i →
+      τ.stack = x :: stk →
+      SimG C ctx τ { τ with stack := stk } (L + 1) I rf (loopFrom run lab.toList r i V).2
+        (adjK lab (kind (loopFrom run lab.toList r i V).1)) := by
+  intro r
+  induction r with
+  | zero => intro i V τ _ h0; exact absurd h0 (Nat.lt_irrefl 0)
+  | succ r ih =>
+    intro i V τ hN _ hpc hh hit hcnt hstk
+    have hb := hbody i τ hpc hh hit hcnt
+    -- one `leaveBlock 1` from a state that still has the slot
+    have leave1 : ∀ (τ1 : VM) (l1 : List Ev) (J : List Nat), Common τ τ1 l1 J rf → τ1.stack = τ.stack →
+        Common { τ with stack := stk } (VM.step τ1 (.leaveBlock 1)) l1 J rf ∧
+        (VM.step τ1 (.leaveBlock 1)).stack = stk ∧ (VM.step τ1 (.leaveBlock 1)).pc = τ1.pc + 1 := by
+      intro τ1 l1 J hc hs
+      refine ⟨⟨by simpa using hc.log, by simpa using hc.tries, by simpa using hc.iters, by simpa using hc.halted,
+        fun y hy => by simpa using hc.cnt y hy, fun hr => by simpa using hc.res hr⟩, ?_, by simp⟩
+      simp [hs, hstk]
+    have cont_from : ∀ (τ1 : VM) (l1 : List Ev) (V' : Val), Reach C τ τ1 → Common τ τ1 l1 I rf → τ1.stack = τ.stack →
+        (τ1.pc = bEnd ∨ τ1.pc = contPc) → τ1.cnt id = some i →
+        SimG C ctx τ { τ with stack := stk } (L + 1) I rf (l1 ++ (loopFrom run lab.toList r (i + 1) V').2)
+          (adjK lab (kind (loopFrom run lab.toList r (i + 1) V').1)) := by
+      intro τ1 l1 V' hr1 hc1 hs1 hp1 hcnt1
+      obtain ⟨τ', hr', hc', hs', hif⟩ := hnext i τ1 hp1 hc1.halted hc1.iters hcnt1
+      have hcc : Common τ τ' l1 I rf := by simpa using hc1.trans hc'
+      by_cases hlt : i + 1 < N
+      · simp only [hlt, if_true] at hif
+        have hr0 : 0 < r := by omega
+        have A := ih (i + 1) V' τ' (by omega) hr0 hif.1 hc'.halted hc'.iters hif.2 (by rw [hs', hs1, hstk])
+        exact SimG.prependG (midB := { τ' with stack := stk }) (base := { τ with stack := stk }) (hr1.trans hr')
+          ⟨hcc.log, hcc.tries, hcc.iters, hcc.halted, hcc.cnt, hcc.res⟩ rfl A
+      · simp only [hlt, if_false] at hif
+        have hr0 : r = 0 := by omega
+        subst hr0
+        simp only [loopFrom, kind, adjK, List.append_nil]
+        obtain ⟨c2, s2, p2⟩ := leave1 τ' l1 I hcc (by rw [hs', hs1])
+        exact ⟨VM.step τ' (.leaveBlock 1), (hr1.trans hr').trans (Reach.one hcc.halted (by rw [hif]; exact hL)),
+          c2, by rw [p2, hif], s2⟩
+    -- a break/continue that targets an enclosing statement: leave the scope, then stand at the outer exit point
+    have outer : ∀ (lb : Option Label) (b : Bool) (τ1 : VM), labMatch lb lab = false → Reach C τ τ1 → Common τ τ1 (run i).2 Ib rf →
+        τ1.stack = τ.stack → ExitPt C (BI.iscope :: BI.loop lab (L + 1) contPc :: ctx) τ1 lb b →
+        ∃ τ2, Reach C τ τ2 ∧ Common { τ with stack := stk } τ2 (run i).2 I rf ∧ τ2.stack = stk ∧ ExitPt C ctx τ2 lb b := by
+      intro lb b τ1 hm h1 h2 h3 ⟨ex, t, hf, hcd⟩
+      obtain ⟨ex', rfl, hf'⟩ := findBrk_iscope_miss hm hf
+      have hi : C[τ1.pc]? = some (Instr.leaveBlock 1) := codeAt_head hcd
+      obtain ⟨c2, s2, p2⟩ := leave1 τ1 _ I (h2.mono hsub (fun h => h)) h3
+      exact ⟨VM.step τ1 (.leaveBlock 1), h1.trans (Reach.one h2.halted hi), c2, s2, exitPt_peel hf' hcd _ p2⟩
+    rw [loopFrom_succ]
+    cases hri : run i with
+    | mk c l =>
+      rw [hri] at hb outer
+      simp only at hb outer ⊢
+      cases c with
+      | normal v =>
+        obtain ⟨τ1, h1, h2, h3, h4⟩ := hb
+        have := cont_from τ1 l ((Compl.normal v).value.getD V) h1 (h2.mono hsub (fun h => h)) h4 (Or.inl h3)
+          (by rw [h2.cnt id hidb]; exact hcnt)
+        simpa [loopContinues] using this
+      | cont lb v =>
+        obtain ⟨τ1, h1, h2, h3, hE⟩ := hb
+        have hlc : (Compl.cont lb v).loopContinues lab.toList = labMatch lb lab := by
+          cases lb with
+          | none => simp [loopContinues, labMatch]
+          | some x => simp only [loopContinues]; exact labMatch_toList lab x
+        by_cases hm : labMatch lb lab = true
+        · obtain ⟨ex, t, hf, hcd⟩ := hE
+          rw [findBrk_iscope_hit_cont hm] at hf
+          have hf2 : ex = [] ∧ t = contPc := by simpa [eq_comm] using hf
+          obtain ⟨hex, ht⟩ := hf2
+          subst hex
+          subst ht
+          have hi : C[τ1.pc]? = some (Instr.jump (CS.rel t (τ1.pc + 0))) := codeAt_head hcd
+          let τ2 := VM.step τ1 (.jump (CS.rel t (τ1.pc + 0)))
+          have hc2 : Common τ1 τ2 [] Ib rf :=
+            ⟨by simp [τ2], by simp [τ2], by simpa [τ2] using h2.iters, by simpa [τ2] using h2.halted,
+             fun _ _ => by simp [τ2], fun _ => by simp [τ2]⟩
+          have hp2 : τ2.pc = t := by
+            have := jmp_rel τ1.pc t
+            simpa [τ2] using this
+          have hcc : Common τ τ2 l Ib rf := by simpa using h2.trans hc2
+          have := cont_from τ2 l ((Compl.cont lb v).value.getD V) (h1.trans (Reach.one h2.halted hi))
+            (hcc.mono hsub (fun h => h)) (by simpa [τ2] using h3) (Or.inr hp2)
+            (by rw [hcc.cnt id hidb]; exact hcnt)
+          simpa [hlc, hm] using this
+        · have hm' : labMatch lb lab = false := by simpa using hm
+          have hk : adjK lab (kind ((Compl.cont lb v).updateEmpty V).exitBreakable) = K.cont lb := by
+            rw [kind_exitBreakable, kind_updateEmpty]; rfl
+          simp only [hlc, hm', Bool.false_eq_true, if_false]
+          rw [hk]
+          exact outer lb false τ1 hm' h1 h2 h3 hE
+      | brk lb v =>
+        obtain ⟨τ1, h1, h2, h3, hE⟩ := hb
+        simp only [loopContinues, Bool.false_eq_true, if_false]
+        have hk0 : kind ((Compl.brk lb v).updateEmpty V).exitBreakable = exitK (K.brk lb) := by
+          rw [kind_exitBreakable, kind_updateEmpty]; rfl
+        rw [hk0]
+        by_cases hm : labMatch lb lab = true
+        · obtain ⟨ex, t, hf, hcd⟩ := hE
+          rw [findBrk_iscope_hit_brk hm] at hf
+          have hf2 : ex = [Instr.leaveBlock 1] ∧ t = L + 1 := by simpa [eq_comm] using hf
+          obtain ⟨hex, ht⟩ := hf2
+          subst hex
+          subst ht
+          have hi : C[τ1.pc]? = some (Instr.leaveBlock 1) := codeAt_head hcd
+          have hj : C[τ1.pc + 1]? = some (Instr.jump (CS.rel (L + 1) (τ1.pc + 1))) := by
+            have := codeAt_head (codeAt_tail hcd)
+            simpa using this
+          obtain ⟨c2, s2, p2⟩ := leave1 τ1 l I (h2.mono hsub (fun h => h)) h3
+          let τ2 := VM.step τ1 (.leaveBlock 1)
+          let τ3 := VM.step τ2 (.jump (CS.rel (L + 1) (τ1.pc + 1)))
+          have hc3 : Common τ2 τ3 [] I rf :=
+            ⟨by simp [τ3], by simp [τ3], by simpa [τ3, τ2] using c2.iters, by simpa [τ3, τ2] using c2.halted,
+             fun _ _ => by simp [τ3], fun _ => by simp [τ3]⟩
+          have hp3 : τ3.pc = L + 1 := by
+            have := jmp_rel (τ1.pc + 1) (L + 1)
+            simpa [τ3, τ2] using this
+          have hk : adjK lab (exitK (K.brk lb)) = K.normal := by
+            cases lb with
+            | none => rfl
+            | some x =>
+              have : lab = some x := by
+                cases lab with
+                | none => simp [labMatch] at hm
+                | some y => simp [labMatch] at hm; rw [hm]
+              simp [exitK, adjK, this]
+          rw [hk]
+          refine ⟨τ3, h1.trans (Reach.step h2.halted hi (Reach.one c2.halted (by rw [p2]; exact hj))), ?_, hp3, ?_⟩
+          · simpa using c2.trans hc3
+          · show τ3.stack = stk
+            simpa [τ3, τ2] using s2
+        · have hm' : labMatch lb lab = false := by simpa using hm
+          have hk : adjK lab (exitK (K.brk lb)) = K.brk lb := by
+            cases lb with
+            | none => simp [labMatch] at hm'
+            | some x =>
+              have : ¬ (lab = some x) := by
+                intro h; subst h; simp [labMatch] at hm'
+              simp [exitK, adjK, this]
+          rw [hk]
+          exact outer lb true τ1 hm' h1 h2 h3 hE
+      | ret v =>
+        obtain ⟨τ1, h1, h2, ⟨xs, h3⟩, h4⟩ := hb
+        simp only [loopContinues, Bool.false_eq_true, if_false]
+        have hk0 : adjK lab (kind ((Compl.ret v).updateEmpty V).exitBreakable) = K.ret v := by
+          rw [kind_exitBreakable, kind_updateEmpty]; rfl
+        rw [hk0]
+        refine ⟨τ1, h1, ?_, ⟨xs ++ [x], by rw [h3, hstk]; simp⟩, by simpa [retExitsS] using h4⟩
+        have := h2.mono hsub (fun h => h)
+        exact ⟨this.log, this.tries, this.iters, this.halted, this.cnt, this.res⟩
+      | thr v =>
+        obtain ⟨τ1, h2, ⟨xs, h3⟩, h4⟩ := hb
+        simp only [loopContinues, Bool.false_eq_true, if_false]
+        have hk0 : adjK lab (kind ((Compl.thr v).updateEmpty V).exitBreakable) = K.thr v := by
+          rw [kind_exitBreakable, kind_updateEmpty]; rfl
+        rw [hk0]
+        refine ⟨τ1, ?_, ⟨xs ++ [x], by rw [h3, hstk]; simp⟩, h4⟩
+        have := h2.mono hsub (fun h => h)
+        exact ⟨this.log, this.tries, this.iters, this.halted, this.cnt, this.res⟩
+      | fatal =>
+        simp only [loopContinues, Bool.false_eq_true, if_false]
+        exact hb
+
 /-! ### a statement without `return` never completes with a return -/
 
 def NR (r : Res) : Prop := ∀ v, kind r.1 ≠ K.ret v
@@ -1462,8 +1655,159 @@ theorem sim (s : Stmt) : ∀ (cur : Nat) (lab : Option Label) (ls : List Label) 
       exact ⟨by rw [h3, List.append_nil], h4, by rw [h5, h2], by rw [h6, h1],
         fun x hx => h7 x (fun hxe => hx (by rw [hxe]; exact hidI)), fun _ => h8⟩
     cases k with
-    | forin => exact absurd rfl hk.1
-    | forlet => exact absurd rfl hk.2
+    | forin => exact absurd rfl hk
+    | forlet =>
+      simp only [gen] at hnop hC
+      rw [codeAt_append, codeAt_append] at hC
+      obtain ⟨⟨hC0, hC1⟩, hC2⟩ := hC
+      simp only [List.length_append, List.length_cons, List.length_nil, gen_length, List.map_cons, BI.shape] at hC1 hC2
+      generalize hlb : glen body none (BS.iscope :: BS.loop lab :: ctx.map BI.shape) = lb at *
+      have hnb : Instr.nop ∉ gen body id none (BI.iscope :: BI.loop lab (pc + 3 + 2 + lb + 3 + 1) (pc + 3 + 2 + lb) :: ctx) (pc + 3 + 2) :=
+        fun h => hnop (List.mem_append_left _ (List.mem_append_right _ h))
+      have hI0 := codeAt_head hC0
+      have hI1 := codeAt_head (codeAt_tail hC0)
+      have hI2 := codeAt_head (codeAt_tail (codeAt_tail hC0))
+      have hI3 := codeAt_head (codeAt_tail (codeAt_tail (codeAt_tail hC0)))
+      have hI4 := codeAt_head (codeAt_tail (codeAt_tail (codeAt_tail (codeAt_tail hC0))))
+      have hT0 : C[pc + 3 + 2 + lb]? = some Instr.copyStash := by
+        have := codeAt_head hC2
+        simpa [Nat.add_assoc] using this
+      have hT1 : C[pc + 3 + 2 + lb + 1]? = some (Instr.cntInc id) := by
+        have := codeAt_head (codeAt_tail hC2)
+        simpa [Nat.add_assoc] using this
+      have hT2 : C[pc + 3 + 2 + lb + 2]? = some (Instr.jump (CS.rel (pc + 3) (pc + 3 + 2 + lb + 2))) := by
+        have := codeAt_head (codeAt_tail (codeAt_tail hC2))
+        simpa [Nat.add_assoc] using this
+      have hT3 : C[pc + 3 + 2 + lb + 3]? = some (Instr.leaveBlock 1) := by
+        have := codeAt_head (codeAt_tail (codeAt_tail (codeAt_tail hC2)))
+        simpa [Nat.add_assoc] using this
+      have head : ∀ (τ : VM) (i' : Nat), τ.pc = pc + 3 → τ.halted = none → τ.iters = [] → τ.cnt id = some i' →
+          ∃ τ', Reach C τ τ' ∧ Common τ τ' [] (ids (Stmt.loop .forlet id n body)) (retFree (Stmt.loop .forlet id n body)) ∧
+            τ'.stack = τ.stack ∧
+            (if i' < n then τ'.pc = pc + 3 + 2 ∧ τ'.cnt id = some i' else τ'.pc = pc + 3 + 2 + lb + 3) := by
+        intro τ i' hp hhh hii hv
+        let τ2 := VM.step τ (.cntLt id n)
+        let τ3 := VM.step τ2 (.jneP (CS.rel (pc + 3 + 2 + lb + 3) (pc + 3 + 1)))
+        have e2 : C[τ.pc]? = some (Instr.cntLt id n) := by rw [hp]; simpa using hI3
+        have e3 : C[τ2.pc]? = some (Instr.jneP (CS.rel (pc + 3 + 2 + lb + 3) (pc + 3 + 1))) := by
+          have : τ2.pc = pc + 3 + 1 := by simp [τ2, hp]
+          rw [this]; simpa [Nat.add_assoc] using hI4
+        have c2 := cstep τ (.cntLt id n) hhh hii (by simp) (by simp) (by simp) (by simp)
+          (fun x hx => by simp) (by simp)
+        have hr : Reach C τ τ3 := Reach.step hhh e2 (Reach.one c2.halted e3)
+        have ht2 : τ2.stack = (if i' < n then 1 else 0) :: τ.stack := by
+          simp [τ2, hv]
+        by_cases hlt : i' < n
+        · have hstep : τ3 = { τ2 with stack := τ.stack, pc := τ2.pc + 1 } := by
+            simp [τ3, ht2, hlt]
+          have c3 : Common τ2 τ3 [] (ids (Stmt.loop .forlet id n body)) (retFree (Stmt.loop .forlet id n body)) := by
+            rw [hstep]
+            exact ⟨by simp, rfl, c2.iters, c2.halted, fun _ _ => rfl, fun _ => rfl⟩
+          refine ⟨τ3, hr, by simpa using c2.trans c3, by rw [hstep], ?_⟩
+          simp only [hlt, if_true]
+          refine ⟨by rw [hstep]; simp [τ2, hp], ?_⟩
+          have : τ3.cnt id = τ.cnt id := by rw [hstep]; simp [τ2]
+          rw [this, hv]
+        · have hstep : τ3 = { τ2 with stack := τ.stack, pc := ((τ2.pc : Int) + CS.rel (pc + 3 + 2 + lb + 3) (pc + 3 + 1)).toNat } := by
+            simp [τ3, ht2, hlt]
+          have c3 : Common τ2 τ3 [] (ids (Stmt.loop .forlet id n body)) (retFree (Stmt.loop .forlet id n body)) := by
+            rw [hstep]
+            exact ⟨by simp, rfl, c2.iters, c2.halted, fun _ _ => rfl, fun _ => rfl⟩
+          refine ⟨τ3, hr, by simpa using c2.trans c3, by rw [hstep], ?_⟩
+          simp only [hlt, if_false]
+          have hp2 : τ2.pc = pc + 3 + 1 := by simp [τ2, hp]
+          rw [hstep]
+          simp only [hp2]
+          exact jmp_rel (pc + 3 + 1) (pc + 3 + 2 + lb + 3)
+      have hbody : ∀ (i : Nat) (τ : VM), τ.pc = pc + 3 + 2 → τ.halted = none → τ.iters = [] → τ.cnt id = some i →
+          SimK C (BI.iscope :: BI.loop lab (pc + 3 + 2 + lb + 3 + 1) (pc + 3 + 2 + lb) :: ctx) τ (pc + 3 + 2 + lb) (ids body)
+            (retFree (Stmt.loop .forlet id n body)) (exec i [] body).2 (kind (exec i [] body).1) := by
+        intro i τ hp hhh hii hcc
+        have A := ih id none [] (BI.iscope :: BI.loop lab (pc + 3 + 2 + lb + 3 + 1) (pc + 3 + 2 + lb) :: ctx) (pc + 3 + 2) C τ i hstb rfl
+          (fun _ => rfl) hidb hnb hC1 hp hhh hii hcc
+        rw [adj_none] at A
+        simp only [List.map_cons, BI.shape, hlb] at A
+        exact A
+      have hnext : ∀ (i : Nat) (τ : VM), (τ.pc = pc + 3 + 2 + lb ∨ τ.pc = pc + 3 + 2 + lb) → τ.halted = none → τ.iters = [] →
+          τ.cnt id = some i →
+          ∃ τ', Reach C τ τ' ∧ Common τ τ' [] (ids (Stmt.loop .forlet id n body)) (retFree (Stmt.loop .forlet id n body)) ∧
+            τ'.stack = τ.stack ∧
+            (if i + 1 < n then τ'.pc = pc + 3 + 2 ∧ τ'.cnt id = some (i + 1) else τ'.pc = pc + 3 + 2 + lb + 3) := by
+        intro i τ hp hhh hii hcc
+        have hp : τ.pc = pc + 3 + 2 + lb := by rcases hp with h | h <;> exact h
+        let τ0 := VM.step τ .copyStash
+        let τ1 := VM.step τ0 (.cntInc id)
+        let τj := VM.step τ1 (.jump (CS.rel (pc + 3) (pc + 3 + 2 + lb + 2)))
+        have e0 : C[τ.pc]? = some Instr.copyStash := by rw [hp]; exact hT0
+        have e1 : C[τ0.pc]? = some (Instr.cntInc id) := by
+          have : τ0.pc = pc + 3 + 2 + lb + 1 := by simp [τ0, hp]
+          rw [this]; exact hT1
+        have ej : C[τ1.pc]? = some (Instr.jump (CS.rel (pc + 3) (pc + 3 + 2 + lb + 2))) := by
+          have : τ1.pc = pc + 3 + 2 + lb + 2 := by simp [τ1, τ0, hp]
+          rw [this]; exact hT2
+        have c0 := cstep τ .copyStash hhh hii (by simp) (by simp) (by simp) (by simp)
+          (fun x hx => by simp) (by simp)
+        have c1 := cstep τ0 (.cntInc id) c0.halted c0.iters (by simp) (by simp) (by simp) (by simp)
+          (fun x hx => by simp [hx]) (by simp)
+        have cj := cstep τ1 (.jump (CS.rel (pc + 3) (pc + 3 + 2 + lb + 2))) c1.halted c1.iters (by simp) (by simp) (by simp) (by simp)
+          (fun x hx => by simp) (by simp)
+        have hpj : τj.pc = pc + 3 := by
+          have := jmp_rel (pc + 3 + 2 + lb + 2) (pc + 3)
+          have hp1 : τ1.pc = pc + 3 + 2 + lb + 2 := by simp [τ1, τ0, hp]
+          show (((τ1.pc : Nat) : Int) + CS.rel (pc + 3) (pc + 3 + 2 + lb + 2)).toNat = pc + 3
+          rw [hp1]; exact this
+        obtain ⟨τ', h1, h2, h3, h4⟩ := head τj (i + 1) hpj cj.halted cj.iters (by simp [τj, τ1, τ0, hcc])
+        exact ⟨τ', (Reach.step hhh e0 (Reach.step c0.halted e1 (Reach.one c1.halted ej))).trans h1,
+          by simpa using ((c0.trans c1).trans cj).trans h2,
+          by rw [h3]; simp [τj, τ1, τ0], h4⟩
+      -- entry: open the scope, zero the counter, copy the stash, then the loop head
+      let σa := VM.step σ (.enterBlock 1)
+      let σb := VM.step σa (.cntZero id)
+      let σ0 := VM.step σb .copyStash
+      have hIa : C[σ.pc]? = some (Instr.enterBlock 1) := by rw [hpc]; simpa using hI0
+      have hIb : C[σa.pc]? = some (Instr.cntZero id) := by
+        have : σa.pc = pc + 1 := by simp [σa, hpc]
+        rw [this]; simpa using hI1
+      have hIc : C[σb.pc]? = some Instr.copyStash := by
+        have : σb.pc = pc + 1 + 1 := by simp [σb, σa, hpc]
+        rw [this]; simpa using hI2
+      have ca := cstep σ (.enterBlock 1) hh hit (by simp) (by simp) (by simp) (by simp)
+        (fun x hx => by simp) (by simp)
+      have cb := cstep σa (.cntZero id) ca.halted ca.iters (by simp) (by simp) (by simp) (by simp)
+        (fun x hx => by simp [hx]) (by simp)
+      have c0 := cstep σb .copyStash cb.halted cb.iters (by simp) (by simp) (by simp) (by simp)
+        (fun x hx => by simp) (by simp)
+      have hs00 : σ0.stack = 0 :: σ.stack := by simp [σ0, σb, σa]
+      obtain ⟨τh, hrh, hch, hsh, hif⟩ := head σ0 0 (by simp [σ0, σb, σa, hpc]) c0.halted c0.iters (by simp [σ0, σb])
+      have e : pc + glen (Stmt.loop .forlet id n body) lab (ctx.map BI.shape) = pc + 3 + 2 + lb + 3 + 1 := by
+        simp [glen, hlb]; omega
+      rw [e]
+      simp only [iterations]
+      have hr0 : Reach C σ τh := (Reach.step hh hIa (Reach.step ca.halted hIb (Reach.one cb.halted hIc))).trans hrh
+      have hc0 : Common σ τh [] (ids (Stmt.loop .forlet id n body)) (retFree (Stmt.loop .forlet id n body)) := by
+        simpa using ((ca.trans cb).trans c0).trans hch
+      have hs0 : τh.stack = 0 :: σ.stack := by rw [hsh]; exact hs00
+      have hcB : Common σ { τh with stack := σ.stack } [] (ids (Stmt.loop .forlet id n body)) (retFree (Stmt.loop .forlet id n body)) :=
+        ⟨hc0.log, hc0.tries, hc0.iters, hc0.halted, hc0.cnt, hc0.res⟩
+      by_cases hn : 0 < n
+      · simp only [hn, if_true] at hif
+        have L := loopSimLet (C := C) (ctx := ctx) (lab := lab) (L := pc + 3 + 2 + lb + 3) (x := 0) (stk := σ.stack)
+          (fun i => exec i [] body) hbody hnext hT3 hidb hIsub
+          n 0 0 τh (by omega) hn hif.1 hch.halted hch.iters hif.2 hs0
+        have := SimG.prependG (l1 := []) (midB := { τh with stack := σ.stack }) (base := σ) hr0 hcB rfl L
+        show SimG C ctx σ σ _ _ _ _ _
+        simpa using this
+      · simp only [hn, if_false] at hif
+        have hn0 : n = 0 := by omega
+        subst hn0
+        simp only [loopFrom, kind, adjK]
+        let τe := VM.step τh (.leaveBlock 1)
+        have ce : Common τh τe [] (ids (Stmt.loop .forlet id 0 body)) (retFree (Stmt.loop .forlet id 0 body)) :=
+          ⟨by simp [τe], by simp [τe], by simpa [τe] using hch.iters, by simpa [τe] using hch.halted,
+           fun _ _ => by simp [τe], fun _ => by simp [τe]⟩
+        refine ⟨τe, hr0.trans (Reach.one hch.halted (by rw [hif]; exact hT3)), by simpa using hc0.trans ce, ?_, ?_⟩
+        · simp [τe, hif]
+        · simp [τe, hs0]
     | while_ =>
       simp only [gen] at hnop hC
       rw [codeAt_append, codeAt_append] at hC
